@@ -903,6 +903,9 @@ func (e *MetaCDC) startInternal(info *meta.TaskInfo, ignoreUpdateState bool) err
 }
 
 func (e *MetaCDC) newReplicateEntity(info *meta.TaskInfo) (*ReplicateEntity, error) {
+	if entity, ok, err := verifNewReplicateEntity(e, info); ok {
+		return entity, err
+	}
 	taskLog := log.With(zap.String("task_id", info.TaskID))
 	milvusConnectParam := info.MilvusConnectParam
 	kafkaAddress := GetKafkaAddress(info.KafkaConnectParam)
